@@ -224,6 +224,22 @@ inductive Layout : List Byte → Prop where
   | comment {body m : List Byte} : Layout m → Layout (47 :: 42 :: (body ++ 42 :: 47 :: m))
   | unterminated {body : List Byte} : Layout (47 :: 42 :: body)
 
+/-- the body of a comment does not contain its own closing `*/` (`prev` = the character before, 0 at the start) -/
+def noClose : Byte → List Byte → Bool
+  | _, [] => true
+  | prev, c :: t => !(prev == 42 && c == 47) && noClose c t
+
+/-- layout in its unambiguous reading: blanks and comments `/* body */` whose body does not contain `*/` -/
+inductive ExactLayout : List Byte → Prop where
+  | nil : ExactLayout []
+  | blank {c : Byte} {m : List Byte} : isSpace c = true → ExactLayout m → ExactLayout (c :: m)
+  | comment {body m : List Byte} : noClose 0 body = true → ExactLayout m → ExactLayout (47 :: 42 :: (body ++ 42 :: 47 :: m))
+
+/-- the delimiter contexts of the property: what may stand between a token and its delimiter — blanks, and comments when the
+    scanner configuration skips them in `CheckRemainingInput` -/
+def Gap (cfg : LexCfg) (sp : List Byte) : Prop :=
+  if cfg.criSkipsComments then ExactLayout sp else sp.all isSpace = true
+
 /-- what may stand between a value and the delimiter, for the scanner configuration at hand: blanks, and comments when
     `CheckRemainingInput` skips them -/
 def Between (cfg : LexCfg) (m : List Byte) : Prop :=
